@@ -167,6 +167,17 @@ def execute(case):
             res.fail('C20.modulo_zero_wrong_exception', repr(err))
         else:
             res.fail('C20.modulo_zero_accepted', repr(zero))
+        # 'refused at construction': nothing of the refused counter is left behind in the circuit,
+        # the application may go on with a valid one (also under the same name)
+        left = [b.name for b in edzed.get_circuit().getblocks()]
+        if left:
+            res.fail('C20.modulo_zero_left_in_circuit', f"after the refused Counter('z', modulo={zero!r}) the "
+                     f"circuit contains {left}")
+        else:
+            try:
+                edzed.Counter('z', modulo=7, initdef=9)
+            except Exception as err:
+                res.fail('C20.modulo_zero_left_in_circuit', f"a valid Counter('z') after the refused one: {err!r}")
         harness.reset()
 
     harness.run_case(scenario)
